@@ -166,6 +166,10 @@ def run(tier):
     rnd = random.Random(chk.seed * 65537 + 11)
     quick = tier == "quick"
     mc_dag.run_mc(chk, quick, which="C11")
+    import toy
+
+    for m_ in toy.run_toy(chk, quick, rnd, "C11", kinds=['grp_sum', 'grp_max'])[:5]:
+        chk.violation(f"C11|toy-universe|target={m_['target']}|{m_['what'][:40]}", f"toy universe (MC_Dag configuration {m_['id']}): {m_['what']} for target {m_['target']}", m_)
     # ---- A: MC_Aggregate + dump
     cfg = tlc.SPEC_DIR / "_gen_agg.cfg"
     cfg.write_text(f"CONSTANTS\n  MaxRows = {4 if quick else 5}\n  Vals = {{0, 1, 3}}\n  Ids = {{0, 2, 5}}\nSPECIFICATION Spec\nINVARIANT InvConservation\nINVARIANT InvConstant\nINVARIANT InvSelfConsistent\nINVARIANT InvMembership\nCHECK_DEADLOCK FALSE\n")
